@@ -51,10 +51,11 @@ F15  == MkFloat(<<3, 2>>)
 F20  == MkFloat(<<2, 1>>)
 FInf == [k |-> "float", q |-> Zero, sp |-> "inf"]
 FNan == [k |-> "float", q |-> Zero, sp |-> "nan"]
+BigInt == [k |-> "bigint", sign |-> 1]          \* an integer that no float can hold (10 ** 400)
 C12  == MkComplex(Fin(<<1, 1>>), Fin(<<2, 1>>))
 
 ArbAtoms == { MkNone, MkBool("T"), MkBool("F"), MkInt(0), MkInt(1), MkInt(5), MkInt(-3),
-              F15, F20, F50, C50, FNan, C12, MkStr("s_a"), MkStr("s_empty"), MkStr("s_5"), MkBytes("b_x"), MkBArr("b_x") }
+              F15, F20, F50, C50, FNan, FInf, BigInt, C12, MkStr("s_a"), MkStr("s_empty"), MkStr("s_5"), MkBytes("b_x"), MkBArr("b_x") }
 ArbComposite == { MkList(<<>>), MkList(<<MkInt(1)>>), MkTuple(<<MkStr("s_a"), MkInt(1)>>),
                   MkDict(<<>>), MkDict(<< <<MkStr("s_a"), MkInt(1)>> >>), MkList(<<MkStr("s_a")>>),
                   MkSeq("other", <<MkInt(1)>>), MkMap("proxy", << <<MkStr("s_a"), MkInt(1)>> >>) }
@@ -125,8 +126,12 @@ Members(T) ==
            MkTuple([i \in DOMAIN T.es |-> Pick2(Members(T.es[i]))]) }
     [] T.k \in {"dict", "defaultdict", "ordereddict"} ->
          LET K == {m \in Members(T.kt) : KeyAble(m)}
-             V == Members(T.vt) IN
-         {MkDict(<<>>)} \cup
+             V == Members(T.vt)
+             mixed == IF T.kt.k # "union" THEN {}     \* one key of each member type, in one mapping
+                      ELSE LET ks == [i \in DOMAIN T.kt.alts |-> Pick1(Members(T.kt.alts[i]))] IN
+                           IF (\A i \in DOMAIN ks : KeyAble(ks[i])) /\ ~Collides(ks)
+                           THEN { MkDict([i \in DOMAIN ks |-> <<ks[i], Pick1(V)>>]) } ELSE {} IN
+         {MkDict(<<>>)} \cup mixed \cup
          (IF K = {} THEN {} ELSE
             { MkDict(<< <<Pick1(K), Pick1(V)>> >>) } \cup
             (IF PyEq(Pick1(K), Pick2(K)) THEN {} ELSE { MkDict(<< <<Pick1(K), Pick2(V)>>, <<Pick2(K), Pick1(V)>> >>) }))
@@ -244,7 +249,8 @@ EnumS  == TEnum("Color", <<MkStr("s_a"), MkStr("s_b")>>)
 EnumI  == TEnum("Num", <<MkInt(1), MkInt(2)>>)
 SubI   == TSub("MyInt", TInt)
 SubS   == TSub("MyStr", TStr)
-ExtraLeaves == { LitIS, TLit(<<MkBool("T")>>), EnumS, EnumI, SubI, SubS }
+ExtraLeaves == { LitIS, TLit(<<MkBool("T")>>), EnumS, EnumI, SubI, SubS,
+                 TDict("dict", TUnion(<<TStr, TInt>>), TFloat), TDict("dict", TUnion(<<TInt, TS("fraction")>>), TInt) }
 
 (* C02: the target kinds of the matrix *)
 MatrixTargets ==
@@ -258,12 +264,12 @@ Contexts(T) ==
   \cup (IF T.k \in KeyKinds THEN { TDict("dict", T, TInt) } ELSE {})
 
 (* C11: members that overlap *)
-UPoolQ == { TInt, TFloat, TS("complex"), TS("bool"), TStr, TS("fraction"), TS("date"), TS("none"),
+UPoolQ == { TInt, TFloat, TS("complex"), TS("bool"), TStr, TS("fraction"), TS("date"), TS("datetime"), TS("none"),
             TLit(<<MkInt(1), MkInt(2)>>), TLit(<<MkStr("s_a")>>), EnumS, TAnn(TInt, <<[k |-> "pos"]>>), SubI,
             TSeq("list", TInt), TSeq("tuplevar", TInt), TTuple(<<TInt, TInt>>),
             ClsT(TInt), TCls("KB", << Fld("s_a", TInt, NoDef) >>, <<"struct", "tuple">>, "struct"),
             TStruct(<< <<"s_a", TInt>> >>) }
-UPoolT == UPoolQ \cup { TS("decimal"), TS("datetime"), TS("any"), TS("pattern"), TS("path"), EnumI, SubS, TOpt(TInt),
+UPoolT == UPoolQ \cup { TS("decimal"), TS("time"), TS("any"), TS("pattern"), TS("path"), EnumI, SubS, TOpt(TInt),
                         TDict("dict", TStr, TInt), TSeq("set", TInt) }
 UnionLeaves(P) == { TUnion(<<a, b>>) : a, b \in P }
 UnionNest(U) == { TUnion(<<U, m>>) : m \in {TStr, TFloat, TS("none")} } \cup { TUnion(<<m, U>>) : m \in {TStr, TInt} }
@@ -296,7 +302,7 @@ V1 == TCls("V1", << TagFld("s_v1"), Fld("s_y", TInt, DefVal(MkInt(6))) >>, <<"st
 V2 == TCls("V2", << TagFld("s_v2"), Fld("s_y", TStr, DefVal(MkStr("s_a"))) >>, <<"struct">>, "struct")
 V3 == TCls("V3", << TagFld("s_v3"), Fld("s_y", TInt, DefVal(MkInt(6))), Fld("s_z", TInt, DefVal(MkInt(7))) >>, <<"struct">>, "struct")
 V4 == TCls("V4", << Fld("s_y", TInt, NoDef), TagFld("s_v1") >>, <<"struct", "tuple">>, "struct")
-N1 == TCls("N1", << Fld("s_kind", TLit(<<MkInt(1)>>), DefVal(MkInt(1))), Fld("s_y", TInt, DefVal(MkInt(6))) >>, <<"struct">>, "struct")
+N1 == TCls("N1", << Fld("s_kind", TLit(<<MkInt(0)>>), DefVal(MkInt(0))), Fld("s_y", TInt, DefVal(MkInt(6))) >>, <<"struct">>, "struct")
 N2 == TCls("N2", << Fld("s_kind", TLit(<<MkInt(2)>>), DefVal(MkInt(2))), Fld("s_y", TInt, DefVal(MkInt(6))) >>, <<"struct">>, "struct")
 TTagged(vs, lay) ==
   [k |-> "tagged", vars |-> vs, tag |-> "s_kind",
@@ -320,6 +326,8 @@ KKw == TCls("KKw", << Fld("s_a", TInt, NoDef), Fld("s_c", TStr, DefVal(MkStr("s_
                       FldX("s_b", TInt, DefVal(MkInt(5)), "T", <<"s_b">>, "s_b", "F", "T") >>, <<"struct", "tuple">>, "struct")
 KInit == TCls("KInit", << Fld("s_a", TInt, NoDef), FldX("s_b", TStr, DefVal(MkStr("s_empty")), "F", <<"s_b">>, "s_b", "T", "F"),
                           Fld("s_c", TInt, NoDef) >>, <<"struct", "tuple">>, "struct")
+KInitT == TCls("KInitT", << Fld("s_a", TInt, NoDef), FldX("s_b", TStr, DefVal(MkStr("s_empty")), "F", <<"s_b">>, "s_b", "T", "F"),
+                            Fld("s_c", TFloat, NoDef) >>, <<"struct", "tuple">>, "tuple")
 KFac == TCls("KFac", << Fld("s_a", TInt, NoDef), Fld("s_b", TListI, DefFac(MkList(<<>>))),
                         Fld("s_c", TSeq("set", TInt), DefFac([k |-> "set", f |-> "set", es |-> <<>>])) >>, <<"struct", "tuple">>, "struct")
 KHook == [TCls("KHook", << Fld("s_a", TInt, NoDef), Fld("s_b", TInt, DefVal(MkInt(5))) >>, <<"struct", "tuple">>, "struct")
@@ -332,9 +340,9 @@ KTup == TCls("KTup", << Fld("s_a", TInt, NoDef), Fld("s_b", TStr, DefVal(MkStr("
 KTupKw == TCls("KTupKw", << Fld("s_a", TInt, NoDef), FldX("s_b", TInt, DefVal(MkInt(5)), "T", <<"s_b">>, "s_b", "F", "T") >>,
                <<"struct", "tuple">>, "tuple")
 KNest == TCls("KNest", << Fld("s_a", KAlias, NoDef), Fld("s_b", TSeq("list", KTup), DefFac(MkList(<<>>))) >>, <<"struct", "tuple">>, "struct")
-KOpt == TCls("KOpt", << Fld("s_a", TOpt(TInt), DefVal(MkNone)), Fld("s_b", TUnion(<<TInt, TStr>>), DefVal(MkInt(5))) >>,
+KOpt == TCls("KOpt", << Fld("s_a", TOpt(TInt), DefVal(MkInt(5))), Fld("s_b", TUnion(<<TInt, TStr>>), DefVal(MkInt(5))) >>,
              <<"struct", "tuple">>, "struct")
-ClsLeaves == { KAlias, KInNames, KRenameF, KExcl, KKw, KInit, KFac, KHook, KHookF, KExtra, KTup, KTupKw, KNest, KOpt }
+ClsLeaves == { KAlias, KInNames, KRenameF, KExcl, KKw, KInit, KInitT, KFac, KHook, KHookF, KExtra, KTup, KTupKw, KNest, KOpt }
 
 (* C04: adversarial leaves *)
 ClsHook(c) == [TCls("KH", << Fld("s_a", TInt, NoDef), Fld("s_b", TInt, DefVal(MkInt(5))) >>, <<"struct", "tuple">>, "struct")
